@@ -382,3 +382,163 @@ Theorem C15_mark_depths_meet_translation_hypothesis : forall rvalid rfind filter
 Proof. exact depths_translated. Qed.
 Print Assumptions C15_mark_depths_meet_translation_hypothesis.
 End C15_translated_depths.
+
+(* ------------------------------------------------------------------------------------------ *)
+(* THE LOOPS OF ec_glob ARE THE MODEL'S LOOPS, ON THE C TEXT (coq/TrGlob.v).  /repo/ex.c ec_glob, translated by tools/c2clite.py into the
+   CLite term GenCFuncs.cf_ec_glob (whitelist tools/c2clite.d/99zz_glob.list), is -- TrGlob.ec_glob_shape, by reflexivity -- the sequence
+   frame; nesting guard; default range; ex_region/ex_zero; not; pattern; xgdep++; marking loop; i = beg; visit loop; final sweep; xgdep--;
+   rstr_free; return 0, with the loops TrGlob.mark_loop / scan_loop / sweep_loop / visit_loop.  The theorems below RUN these statements
+   (CLite.exec) for `cx ext fuel d` = CLiteExt.callx ext cprog fuel (S d): the translated callees ex_lbuf, lbuf_len, lbuf_get, lbuf_globset,
+   lbuf_globget run as C text; the calls to rstr_find, ex_exec, rstr_free go to the oracle `ext`, for EVERY oracle that satisfies
+     find_oracle : rstr_find on the line pointer of row i answers negative exactly when the model's matcher finds nothing in that line;
+     exec_oracle : THE SIMULATION HYPOTHESIS -- from a memory that represents the model state s (st_rep: SOME line buffer behind bufs[0].lb
+                   with the lines and ln_glob marks of s, xrow, xgdep; the blocks are existential because the executor may re-allocate the whole
+                   buffer), ex_exec(s) returns r and leaves a memory that represents `exec body s`, r = 0 iff the model's result is 0;
+     both leave the blocks of ec_glob's own frame (fr: the cells of the locals beg, end, s) untouched.
+   B bounds the number of lines of every represented buffer (the inner loops run on the fuel of the outer one). *)
+From NV Require CLiteExt TrGlob.
+Section C15_translated_loops.
+Import CLite CLiteProps GenCFuncs CLiteExt TrLbufBase TrLbufGlob TrGlob.
+
+(* (1) for (i = beg + 1; i < end; i++) lbuf_globset(xb, i, xgdep)  =  globset_range *)
+Theorem C15_tr_marking_loop : forall ext fuel d v0 v1 v2 v3 v9 bre b5 b6 b7 b10 nt fr dep, (dep <= 7)%N ->
+  forall y n i (l : ExDefs.lbuf) gblk m ln fuel' e, In b7 fr ->
+  mrep (keep fr) y gblk m (LB l) -> cell_at m G_xgdep (Z.of_N dep) -> cell_at m b7 e -> i32 e ->
+  (0 <= i)%Z -> (e <= Z.of_nat (length (LB l)))%Z -> n = Z.to_nat (e - i) -> (n < fuel')%nat ->
+  exists gblk', exec (cx ext fuel d) fuel' mark_loop (ST v0 v1 v2 v3 v9 bre b5 b6 b7 b10 nt i ln m)
+                = ONormal (ST v0 v1 v2 v3 v9 bre b5 b6 b7 b10 nt (Z.max i e) ln (CLiteProps.upd m (y_bg y) gblk')) /\
+                mrep (keep fr) y gblk' (CLiteProps.upd m (y_bg y) gblk') (LB (ExDefs.globset_range n (Z.to_nat i) dep l)).
+Proof. exact tr_glob_mark_loop. Qed.
+Print Assumptions C15_tr_marking_loop.
+
+(* (2) while (i < lbuf_len(xb) && !lbuf_globget(xb, i, xgdep)) i++  =  glob_scan: the index of the first marked row at or after i (the
+   length if there is none), that row's mark cleared, nothing else changed *)
+Theorem C15_tr_scan_loop : forall ext fuel d v0 v1 v2 v3 v9 bre b5 b6 b7 b10 nt fr dep, (dep <= 7)%N ->
+  forall y n i (l : ExDefs.lbuf) gblk m ln fuel',
+  mrep (keep fr) y gblk m (LB l) -> cell_at m G_xgdep (Z.of_N dep) -> (i + n = length (LB l))%nat -> (n < fuel')%nat ->
+  exists gblk', exec (cx ext fuel d) fuel' scan_loop (ST v0 v1 v2 v3 v9 bre b5 b6 b7 b10 nt (Z.of_nat i) ln m)
+                = ONormal (ST v0 v1 v2 v3 v9 bre b5 b6 b7 b10 nt (Z.of_nat (fst (ExDefs.glob_scan i dep l))) ln (CLiteProps.upd m (y_bg y) gblk')) /\
+                mrep (keep fr) y gblk' (CLiteProps.upd m (y_bg y) gblk') (LB (snd (ExDefs.glob_scan i dep l))).
+Proof. exact tr_glob_scan_loop. Qed.
+Print Assumptions C15_tr_scan_loop.
+
+(* (3) for (i = 0; i < lbuf_len(xb); i++) lbuf_globget(xb, i, xgdep)  =  globclear over the WHOLE buffer *)
+Theorem C15_tr_final_sweep : forall ext fuel d v0 v1 v2 v3 v9 bre b5 b6 b7 b10 nt fr dep, (dep <= 7)%N ->
+  forall y n i (l : ExDefs.lbuf) gblk m ln fuel',
+  mrep (keep fr) y gblk m (LB l) -> cell_at m G_xgdep (Z.of_N dep) -> (i + n = length (LB l))%nat -> (n < fuel')%nat ->
+  exists gblk', exec (cx ext fuel d) fuel' sweep_loop (ST v0 v1 v2 v3 v9 bre b5 b6 b7 b10 nt (Z.of_nat i) ln m)
+                = ONormal (ST v0 v1 v2 v3 v9 bre b5 b6 b7 b10 nt (Z.of_nat (length (LB l))) ln (CLiteProps.upd m (y_bg y) gblk')) /\
+                mrep (keep fr) y gblk' (CLiteProps.upd m (y_bg y) gblk') (LB (ExDefs.globclear n i dep l)).
+Proof. exact tr_glob_sweep_loop. Qed.
+Print Assumptions C15_tr_final_sweep.
+
+(* (4) ONE VISIT: ln = lbuf_get(xb, i); if ((rstr_find(re, ln, ...) < 0) == not) { xrow = i; if (ex_exec(s)) break; i = MAX(0, MIN(i, xrow)); }
+   scan  =  one unfolding of glob_loop: the command list runs exactly when (no match) = not, on the state with xrow = i; a failing list
+   ends the loop (OBreak) in the executor's state; otherwise the scan restarts at max(0, min(i, xrow')) of the executor's state *)
+Theorem C15_tr_visit_step : forall ext fuel d v0 v1 v2 v3 v9 bre b5 b6 b7 b10 nt fr dep, (dep <= 7)%N ->
+  forall B rfind mexec pat body bs os, ~ In G_xrow fr -> In b10 fr ->
+  find_oracle ext bre b5 fr B rfind pat -> exec_oracle ext fr B mexec body bs os -> exec_keeps_depth mexec body ->
+  forall m s iM x ln fuel', st_rep fr B m s -> dep = N.of_nat (ExDefs.xgdep s) -> nth_error (LB (ExDefs.lb s)) iM = Some x ->
+  nth_error m b10 = Some [VPtr bs os] -> (B <= fuel')%nat ->
+  let run := Bool.eqb (negb (hit_of rfind pat x)) nt in
+  let s1 := if run then fst (mexec body (ExDefs.set_xrow s (Z.of_nat iM))) else s in
+  let r := if run then snd (mexec body (ExDefs.set_xrow s (Z.of_nat iM))) else 0%Z in
+  let i1 := if run then Z.to_nat (Z.min (Z.of_nat iM) (ExDefs.xrow s1)) else iM in
+  if run && negb (r =? 0)%Z then
+    exists lnv m', exec (cx ext fuel d) (S fuel') visit_body (ST v0 v1 v2 v3 v9 bre b5 b6 b7 b10 nt (Z.of_nat iM) ln m)
+                   = OBreak (ST v0 v1 v2 v3 v9 bre b5 b6 b7 b10 nt (Z.of_nat iM) lnv m') /\ st_rep fr B m' s1 /\ keeps fr m m'
+  else
+    exists iC lnv m', exec (cx ext fuel d) (S fuel') visit_body (ST v0 v1 v2 v3 v9 bre b5 b6 b7 b10 nt (Z.of_nat iM) ln m)
+                      = ONormal (ST v0 v1 v2 v3 v9 bre b5 b6 b7 b10 nt iC lnv m') /\
+      st_rep fr B m' (ExDefs.set_lb s1 (snd (ExDefs.glob_scan i1 dep (ExDefs.lb s1)))) /\ keeps fr m m' /\
+      (iC = Z.of_nat (fst (ExDefs.glob_scan i1 dep (ExDefs.lb s1))) \/
+       ((Z.of_nat (length (LB (ExDefs.lb s1))) <= iC)%Z /\ (length (LB (ExDefs.lb s1)) <= fst (ExDefs.glob_scan i1 dep (ExDefs.lb s1)))%nat)).
+Proof. exact tr_glob_visit_step. Qed.
+Print Assumptions C15_tr_visit_step.
+
+(* (5) THE VISIT LOOP IN SIMULATION WITH glob_loop.  From a memory that represents s, with the C index equal to the model's (or both beyond the
+   end), whenever the model's loop does not run out of its fuel (exit kind 0: the scan ran off the end; 1: a command list failed), the
+   translated C loop -- for every oracle satisfying the two hypotheses -- ends normally in a memory that represents the model's final state
+   `glob_loop ... s`: the same lines, the same ln_glob marks, the same xrow and xgdep.  The proof is an induction on the model's fuel in which
+   every oracle call ex_exec(s) is matched with the model's call `exec body (set_xrow s i)` on a memory that represents that state: the C loop
+   visits the rows the model visits (C15_visits: row beg, then a subsequence of the originally marked identities), in the same order, and runs
+   the command list at the same visits. *)
+Theorem C15_tr_visit_loop : forall ext fuel d v0 v1 v2 v3 v9 bre b5 b6 b7 b10 nt fr dep, (dep <= 7)%N ->
+  forall B rfind mexec pat body bs os, ~ In G_xrow fr -> In b10 fr ->
+  find_oracle ext bre b5 fr B rfind pat -> exec_oracle ext fr B mexec body bs os -> exec_keeps_depth mexec body ->
+  forall fuelM iM s vis iC m ln fuelC,
+  st_rep fr B m s -> dep = N.of_nat (ExDefs.xgdep s) -> nth_error m b10 = Some [VPtr bs os] ->
+  (iC = Z.of_nat iM \/ ((Z.of_nat (length (LB (ExDefs.lb s))) <= iC)%Z /\ (length (LB (ExDefs.lb s)) <= iM)%nat)) ->
+  (fuelM + B < fuelC)%nat ->
+  snd (glob_loop_x rfind mexec fuelM iM pat body nt dep s vis) <> 2%N ->
+  exists iC' ln' m', exec (cx ext fuel d) fuelC visit_loop (ST v0 v1 v2 v3 v9 bre b5 b6 b7 b10 nt iC ln m)
+                     = ONormal (ST v0 v1 v2 v3 v9 bre b5 b6 b7 b10 nt iC' ln' m') /\
+    st_rep fr B m' (ExDefs.glob_loop rfind mexec fuelM iM pat body nt dep s) /\ keeps fr m m' /\
+    ExDefs.xgdep (ExDefs.glob_loop rfind mexec fuelM iM pat body nt dep s) = ExDefs.xgdep s.
+Proof. exact tr_glob_visit_loop. Qed.
+Print Assumptions C15_tr_visit_loop.
+
+(* (6) THE TAIL OF ec_glob -- everything after the pattern was compiled: xgdep++; marking loop; i = beg; visit loop; final sweep; xgdep--;
+   rstr_free(re); return 0 -- is the tail of ExDefs.ec_glob (s3 .. s6, result 0): from a memory that represents s with beg = b, end = e in
+   the cells of the locals, the function returns 0 in a memory that represents set_gdep s6 (xgdep s): all marks of the depth cleared over the
+   WHOLE buffer, the nesting depth given back. *)
+Theorem C15_tr_glob_tail : forall ext fuel d v0 v1 v2 v3 v9 bre b5 b6 b7 b10 nt fr dep, (dep <= 7)%N ->
+  forall B rfind mexec pat body bs os, ~ In G_xrow fr -> ~ In G_xgdep fr -> In b10 fr ->
+  find_oracle ext bre b5 fr B rfind pat -> exec_oracle ext fr B mexec body bs os -> exec_keeps_depth mexec body ->
+  In b6 fr -> In b7 fr -> free_oracle ext bre fr B ->
+  forall m s b e v11 v12 fuelM fuelC,
+  st_rep fr B m s -> dep = N.of_nat (S (ExDefs.xgdep s)) ->
+  cell_at m b6 b -> cell_at m b7 e -> (0 <= b < 2147483647)%Z -> (e <= Z.of_nat (length (LB (ExDefs.lb s))))%Z -> i32 e ->
+  nth_error m b10 = Some [VPtr bs os] -> (fuelM + B < fuelC)%nat ->
+  let s3 := ExDefs.set_gdep s (S (ExDefs.xgdep s)) in
+  let s4 := ExDefs.set_lb s3 (ExDefs.globset_range (Z.to_nat (e - b - 1)) (Z.to_nat (b + 1)) dep (ExDefs.lb s3)) in
+  snd (glob_loop_x rfind mexec fuelM (Z.to_nat b) pat body nt dep s4 []) <> 2%N ->
+  let s5 := ExDefs.glob_loop rfind mexec fuelM (Z.to_nat b) pat body nt dep s4 in
+  let s6 := ExDefs.set_lb s5 (ExDefs.globclear (length (ExDefs.lns (ExDefs.lb s5))) 0 dep (ExDefs.lb s5)) in
+  exists i' ln' m',
+    exec (cx ext fuel d) fuelC glob_tail
+      (CLite.mkst [v0; v1; v2; v3; VPtr bre 0; VPtr b5 0; VPtr b6 0; VPtr b7 0; VInt (b2z nt); v9; VPtr b10 0; v11; v12] m)
+    = OReturn (VInt 0) (ST v0 v1 v2 v3 v9 bre b5 b6 b7 b10 nt i' ln' m') /\ st_rep fr B m' (ExDefs.set_gdep s6 (ExDefs.xgdep s)).
+Proof. exact tr_glob_tail. Qed.
+Print Assumptions C15_tr_glob_tail.
+
+(* the translated ec_glob IS these pieces (the pattern part glob_pat is followed by glob_tail), and its nesting guard: called with xgdep >= 7 the
+   whole function -- callx on F_ec_glob -- calls ex_show, returns 1 and does nothing else (C15_global_at_level_8_refused on the C text) *)
+Theorem C15_tr_ec_glob_shape : fn_body cf_ec_glob =
+  glob_frame (SSeq glob_guard (SSeq glob_pct (SSeq glob_region (SSeq glob_not (seq_app glob_pat glob_tail))))).
+Proof. exact ec_glob_shape. Qed.
+Print Assumptions C15_tr_ec_glob_shape.
+
+Theorem C15_tr_ec_glob_too_deep : forall ext fuel d vloc vcmd ba oa vtxt (m : mem) g v m',
+  cell_at m G_xgdep g -> (7 <= g)%Z -> i32 g ->
+  ext X_ex_show [VPtr G_lit_676c6f62616c206e657374696e6720746f6f2064_23 0] (glob_entry_mem m (VPtr ba oa)) = Ok (v, m') ->
+  callx ext cprog fuel (S (S d)) F_ec_glob [vloc; vcmd; VPtr ba oa; vtxt] m = Ok (VInt 1, m').
+Proof. exact tr_ec_glob_too_deep. Qed.
+Print Assumptions C15_tr_ec_glob_too_deep.
+
+(* NOT VACUOUS, and the translated loops RUN.  The program's globals with bufs[0].lb -> block NB (a struct lbuf: ln -> NB+1, ln_glob -> NB+2,
+   ln_n = 3) and xgdep = 1; ln_glob = [0; 0; 4; 77] (row 2 carries the depth-2 mark of an enclosing global, capacity 4), end = 3 in block NB+3.
+   The marking loop from i = 1 stores 2 and 6 into cells 1 and 2; the scan from 0 then stops at row 1 and clears its mark; the model computes
+   the same bits.  Second part: the oracle hypotheses of the visit loop are satisfiable (an oracle whose rstr_find always matches and whose
+   ex_exec does nothing, with the model executor that does nothing). *)
+Example C15_tr_loops_run :
+  let NB := length cglobals in
+  let blk0 := repeat (VInt (-1)) 32 ++ repeat (VInt 0) 32 ++
+              [VPtr (NB + 1) 0; VPtr (NB + 2) 0; VInt 3; VInt 4; VInt 1; VInt 0; VInt 0; VInt 0; VInt 0; VInt 0; VInt 0] in
+  let m0 := CLiteProps.upd (CLiteProps.upd cglobals G_bufs (CLiteProps.upd gb_bufs 33 (VPtr NB 0))) G_xgdep [VInt 1]
+            ++ [blk0; [VPtr 0 0; VPtr 0 0; VPtr 0 0; VInt 0]; [VInt 0; VInt 0; VInt 4; VInt 77]; [VInt 3]] in
+  let st i m := ST (VInt 0) (VInt 0) (VInt 0) (VInt 0) (VInt 0) 0 0 0 (NB + 3) 0 false i (VInt 0) m in
+  let l0 := mklb [mkline 0 0 [97]; mkline 1 0 [98]; mkline 2 4 [99]]%N [] [] 0 1 0 0 3 in
+  let m1 := CLiteProps.upd m0 (NB + 2) [VInt 0; VInt 2; VInt 6; VInt 77] in
+  exec (callf cprog 10 3) 10 mark_loop (st 1%Z m0) = ONormal (st 3%Z m1) /\
+  map lgl (lns (globset_range 2 1 1 l0)) = [0; 2; 6]%N /\
+  exec (callf cprog 10 3) 10 scan_loop (st 0%Z m1) = ONormal (st 1%Z (CLiteProps.upd m0 (NB + 2) [VInt 0; VInt 0; VInt 6; VInt 77])) /\
+  fst (glob_scan 0 1 (globset_range 2 1 1 l0)) = 1%nat /\ map lgl (lns (snd (glob_scan 0 1 (globset_range 2 1 1 l0)))) = [0; 0; 6]%N /\
+  exec (callf cprog 10 3) 10 sweep_loop (st 0%Z m1) = ONormal (st 3%Z (CLiteProps.upd m0 (NB + 2) [VInt 0; VInt 0; VInt 4; VInt 77])) /\
+  map lgl (lns (globclear 3 0 1 (globset_range 2 1 1 l0))) = [0; 0; 4]%N /\
+  (forall bre b5 fr B pat body bs os,
+     let ext := fun (f : nat) (_ : list val) (m : mem) => if Nat.eqb f X_rstr_find || Nat.eqb f X_ex_exec then Ok (VInt 0, m) else Err EShape in
+     find_oracle ext bre b5 fr B (fun _ _ _ => Some (0, 0)%nat) pat /\
+     exec_oracle ext fr B (fun _ s => (s, 0%Z)) body bs os /\ exec_keeps_depth (fun _ s => (s, 0%Z)) body).
+Proof. exact loops_run. Qed.
+End C15_translated_loops.
